@@ -1,7 +1,7 @@
 // vharness: runs the implementation (built from /repo's working tree with -tags verif) on
 // generated cases, writes the Coq case files for the model, evaluates the property oracles.
 //
-//   vharness <PROP> -seed S -n N -out DIR [-mode corr|search|replay] [-replay FILE]
+//	vharness <PROP> -seed S -n N -out DIR [-mode corr|search|replay] [-replay FILE]
 //
 // Outputs in DIR: cases_NNN.v (shards), impl.jsonl (one line per case: id, kind, input hash,
 // input), oracle.jsonl (property-oracle failures with signature + replay data), stats.json.
